@@ -16,6 +16,7 @@ pub mod report;
 pub mod source;
 pub mod subject;
 pub mod generic;
+pub mod isolate;
 
 pub use serde_json;
 pub use serde_json::{json, Value};
